@@ -45,6 +45,9 @@ Inductive stmt :=
 Definition vnnR (l : list R) : Prop := Forall (fun v => 0 <= v) l.
 Definition cp_bag (st : @cp_state R) : list R := fst st ++ concat (concat (snd st)).
 Definition tk_bag (st : @tk_state R) : list R := data (fst st) ++ concat (concat (snd st)).
+(* the weights and the entries of the factors of the DECLARED modes only *)
+Definition dbag (D : list nat) (Fs : list (list (list R))) : list R := concat (concat (map (fun m => nth m Fs []) D)).
+Definition cp_dbag (D : list nat) (st : @cp_state R) : list R := fst st ++ dbag D (snd st).
 
 (* what a call evaluates to: the corresponding function of Model/Nonneg.v (tied to the implementation by the executed correspondence) *)
 Inductive contract : fn -> list R -> list R -> Prop :=
@@ -56,6 +59,8 @@ Inductive contract : fn -> list R -> list R -> Prop :=
     contract FActiveSet x0 out
 | c_cpnorm nrm w Fs : (forall v, 0 <= nrm v) ->
     contract FCpNormalize (cp_bag (w, Fs)) (cp_bag (cp_normalize Rops nrm (w, Fs)))
+| c_cpnorm_D nrm w Fs D : (forall v, 0 <= nrm v) ->             (* cp_normalize, as far as the weights and the declared modes are concerned *)
+    contract FCpNormalize (cp_dbag D (w, Fs)) (cp_dbag D (cp_normalize Rops nrm (w, Fs)))
 | c_tknorm nrm core Fs : (forall v, 0 <= nrm v) ->
     contract FTuckerNormalize (tk_bag (core, Fs)) (tk_bag (tucker_normalize Rops nrm (core, Fs)))
 | c_initcp_builtin nrm Rk raw nm l0 : (forall v, 0 <= nrm v) ->   (* init = 'svd' / 'random' (a string has no entries), non_negative=True *)
